@@ -129,7 +129,8 @@ def err_of(e):
         return ("EIndex",)
     if isinstance(e, NotImplementedError):
         return ("ENotImpl",)
-    raise e
+    # any other exception is an outcome the model never produces: reported as a mismatch
+    return ("EOther_" + type(e).__name__,)
 
 
 def descendants(world, x, out=None):
@@ -241,12 +242,12 @@ def exec_op(world, env, op):
         for k in idx:
             try:
                 it = x[k] if not isinstance(x, world.StubAnt) else [x][k]
-                items.append(("Ok", it.aid))
+                items.append(("Ok", getattr(it, "aid", -998)))
             except Exception as e:
                 items.append(("Err", err_of(e)))
         n = len(x) if not isinstance(x, world.StubAnt) else 1
         # iteration visits distinct objects exactly when the ids are distinct
-        ids = [a.aid for a in ants]
+        ids = [getattr(a, "aid", -998) for a in ants]     # -998: iteration yielded something that is not an antenna
         if len(set(map(id, ants))) != len(set(ids)):
             ids = ids + [-999]
         return ("OutObs", ids, n, items)
@@ -377,12 +378,12 @@ class Gen:
         self.next_aid = 1
         self.next_oid = 1
 
-    def fresh_pos(self, n, allow_above=True):
+    def fresh_pos(self, n, allow_above=True, p_above=0.04):
         rng = self.rng
         out = []
         for _ in range(n):
             z = rng.choice([-3, -2, -1, -1, 0, -5])
-            if allow_above and rng.random() < 0.04:
+            if allow_above and rng.random() < p_above:
                 z = rng.choice([1, 2])
             out.append((self.next_aid, z))
             self.next_aid += 1
@@ -415,9 +416,21 @@ def gen_history(world, rng, big):
     base_classes = [i for i, c in enumerate(CLASSES) if c["base"]]
     comp_classes = [i for i, c in enumerate(CLASSES) if not c["base"]]
     nbase = rng.randint(2, 5 if big else 4)
+    def valid_build(i):
+        """a build call the target accepts (antenna_class by keyword or position, plus
+        keywords every harness build override knows)"""
+        if rng.random() < 0.3:
+            return ("OBuild", i, [rng.choice([0, 1])], [])
+        kw = [(0, rng.choice([0, 1]))]
+        if rng.random() < 0.4:
+            kw.insert(rng.randint(0, 1), (5, rng.randint(0, 9)))
+        return ("OBuild", i, [], kw)
+
     for _ in range(nbase):
         emit(("ONewBase", g.next_oid, rng.choice(base_classes), g.fresh_pos(rng.choice([0, 1, 2, 2, 3, 4]))))
         g.next_oid += 1
+        if env[-1] is not None and rng.random() < 0.8:
+            emit(valid_build(len(env) - 1))
     nops = rng.randint(8, 28 if big else 18)
     for _ in range(nops):
         r = rng.random()
@@ -436,9 +449,9 @@ def gen_history(world, rng, big):
             emit(("ONewComp", g.next_oid, rng.choice(comp_classes), ch))
             g.next_oid += 1
         elif r < 0.22:
-            emit(("OAnt", g.fresh_pos(1)[0]))
+            emit(("OAnt", g.fresh_pos(1, p_above=0.15)[0]))
         elif r < 0.27:
-            emit(("OList", g.fresh_pos(rng.choice([0, 1, 2, 3]))))
+            emit(("OList", g.fresh_pos(rng.choice([0, 1, 2, 3]), p_above=0.08)))
         elif r < 0.42 and ns and vs:
             i, j = rng.choice(vs), rng.choice(vs)
             if not isinstance(env[i], D.Detector) and not isinstance(env[j], D.Detector):
@@ -454,33 +467,59 @@ def gen_history(world, rng, big):
             if any(d is env[i] for d in descendants(world, env[j])):
                 continue
             emit(("OIadd", i, j))
-        elif r < 0.59 and ns:
+        elif r < 0.545 and ns:
+            # directed: combine with a plain antenna / antenna list that lies above the surface
+            above = [i for i in vs if (isinstance(env[i], world.StubAnt) and env[i].position[2] > 0)
+                     or (isinstance(env[i], list) and any(a.position[2] > 0 for a in env[i]))]
+            if not above:
+                continue
+            j = rng.choice(above)
+            combs = [x for x in ns if isinstance(env[x], D.CombinedDetector)]
+            if combs and rng.random() < 0.6:
+                emit(("OIadd", rng.choice(combs), j))
+            elif rng.random() < 0.5:
+                emit(("OAdd", rng.choice(ns), j))
+            else:
+                emit(("OAdd", j, rng.choice(ns)))
+        elif r < 0.60 and ns:
             k = rng.randint(1, 4)
             l = [rng.choice(ns)] + [rng.choice(vs) for _ in range(k - 1)]
             emit(("OSum", l))
         elif r < 0.71 and ns:
             i = rng.choice(ns)
+            # build_antennas mutates the sub-detectors; the model copies objects by value, so
+            # it is only run where no detector object occurs twice below the target
+            objs = [d for d in descendants(world, env[i]) if isinstance(d, D.Detector)]
+            if len(set(map(id, objs))) != len(objs):
+                continue
             args = []
             if rng.random() < 0.25:
                 args = [rng.choice([0, 1])] + [rng.randint(0, 9) for _ in range(rng.choice([0, 0, 1, 2]))]
-            kw = g.kwargs([0, 5, 6, 8, 0])
+            if rng.random() < 0.45:
+                emit(valid_build(i))
+                continue
+            kw = g.kwargs([0, 5, 6, 0] + ([8] if rng.random() < 0.25 else []))
             kw = list(dict(kw).items())
             if not args and rng.random() < 0.7 and 0 not in dict(kw):
                 kw.insert(rng.randint(0, len(kw)), (0, rng.choice([0, 1])))
             emit(("OBuild", i, args, kw))
-        elif r < 0.80 and world.reg:
+        elif r < 0.82 and world.reg:
             aid = rng.choice(sorted(world.reg))
             emit(("OSetHit", aid, rng.random() < 0.6, rng.random() < 0.4))
-        elif r < 0.87 and vs:
+            if ns and rng.random() < 0.7:
+                i = rng.choice(ns)
+                kw = list(dict(g.kwargs([1, 4, 7, 1] + ([8] if rng.random() < 0.3 else []))).items())
+                emit(("OTrig", i, [], kw))
+        elif r < 0.88 and vs:
             i = rng.choice(vs)
             x = env[i]
             n = 1 if isinstance(x, world.StubAnt) else len(x)
             idx = sorted({0, -1, n - 1, -n, n, -n - 1, rng.randint(-n - 2, n + 1)})
             emit(("OObs", i, idx))
-        elif r < 0.96 and ns:
+        elif r < 0.95 and ns:
             i = rng.choice(ns)
             args = [rng.randint(0, 3) for _ in range(rng.choice([0, 0, 0, 0, 1, 2]))]
-            kw = list(dict(g.kwargs([1, 4, 7, 8, 1])).items())
+            kw = list(dict(g.kwargs([1, 4, 7, 1] + ([8] if rng.random() < 0.3 else []))).items())
             emit(("OTrig", i, args, kw))
         elif ns:
             emit(("OClear", rng.choice(ns), rng.choice([0, 1])))
@@ -527,7 +566,9 @@ def coverage(outs_all):
             k = o[0]
             if k == "OutErr":
                 k += ":" + o[1][0]
-            if k == "OutLog":
+            if k == "OutLog" and o[1][0] == "Ok" and not any(e[0] in ("LAnt", "LBuildCall", "LClear") for e in o[2]):
+                k += ":" + str(o[1][1])
+            if k.startswith("OutLog"):
                 k += ":" + (o[1][0] if o[1][0] == "Ok" else "Err:" + o[1][1][0]) + ":" + ",".join(sorted({e[0] for e in o[2]}))
             cov[k] = cov.get(k, 0) + 1
     return cov
@@ -664,7 +705,8 @@ def run(ctx):
                     "harness/props/c19.py: history generator, stub antenna / Detector subclasses, printing of outcomes in Coq syntax"]
     ctx.assumptions += [
         "antenna-like leaves are not themselves iterable; antenna lists are flat Python lists",
-        "object graphs are acyclic (a CombinedDetector is never added into itself through a nested operand)",
+        "object graphs are acyclic (a CombinedDetector is never added into itself through a nested operand); "
+        "build_antennas is exercised only on detectors in which no sub-detector object occurs twice",
         "harness subclasses override build_antennas/triggered only in the two shapes described in DetectorModel.cls; "
         "signatures without *args; keyword values are integers",
         "Python's operator dispatch (__add__/__radd__/__iadd__ selection, sum) is modelled by py_add/py_sum and validated by correspondence"]
